@@ -356,6 +356,14 @@ def laneApi : List String → String := runApiLane false
 (scheme, dial address, path, method, `Host`, body, header values). -/
 def laneApiW : List String → String := runApiLane true
 
+/-- `c11alt <h|s> <URL.Host> <alt host> <alt port>` → `URL.Host` of the copy `ConvertURL` makes. -/
+def laneAlt : List String → String
+  | [sc, host, ah, ap] =>
+    match decodeScheme sc, decodeHex host, decodeHex ah, decodeHex ap with
+    | some sc, some host, some ah, some ap => encodeHex (convertHost { host := ah, port := ap } sc host)
+    | _, _, _, _ => "bad-op"
+  | _ => "bad-op"
+
 /-- `c11fam <ops> <j> <lane> <args…>`: lane `<lane>` with the policies client `j` of the family
 enforces. -/
 def laneFam : List String → String
@@ -392,6 +400,7 @@ def lanes : List (String × (List String → String)) := [
   ("c11wire", laneWire),
   ("c11api", laneApi),
   ("c11apiw", laneApiW),
+  ("c11alt", laneAlt),
   ("c11fam", laneFam)
 ]
 
